@@ -26,7 +26,7 @@ FIXED_RULES = [
     "if (std::numeric_limits<Coefficient>::is_bounded) { std::ostringstream s; s << std::numeric_limits<Coefficient>::%(M)s(); $0 = mpz_class(s.str()); return true; } return false;",
     {0: "MpzOut"}),
   # ---- delete / copy / assign of the plain classes
-  R("ppl_delete_@SYNTACTIC@", r"ppl_delete_(?P<C>Coefficient|" + PLAIN + ")", VOID, "#0.tdel();", {0: "Obj<%(C)s>:DEL"}, post="if (R.rc == 0) #0.cgone();"),
+  R("ppl_delete_@SYNTACTIC@", r"ppl_delete_(?P<C>Coefficient|" + PLAIN + ")", VOID, "#0.tdel();", {0: "Obj<%(C)s>:DEL"}, post="if (R.rc == 0) { #0.cgone(); if (G.mode == MODE_MAIN) R.expect(R.live_after < R.live_before, \"life:not-released\", \"no ::operator new block was released by the delete function\", \"the object is released\"); }"),
   R("ppl_new_@SYNTACTIC@_from_@SYNTACTIC@", r"ppl_new_(?P<C>" + PLAIN + r")_from_(?P=C)", VOID, "#0.tnew(new %(C)s($1));"),
   R("ppl_assign_@SYNTACTIC@_from_@SYNTACTIC@", r"ppl_assign_(?P<C>" + PLAIN + r")_from_(?P=C)", VOID, "$0 = $1;"),
   R("ppl_@SYNTACTIC@_OK", r"ppl_(?P<C>" + PLAIN + r")_OK", BOOL, "return $0.OK();"),
@@ -92,13 +92,13 @@ FIXED_RULES = [
   R("ppl_@SYSTEM@_clear", r"ppl_(?P<C>" + SYS + ")_clear", VOID, "$0.clear();"),
   R("ppl_@SYSTEM@_insert_@ROW@", r"ppl_(?P<C>" + SYS + ")_insert_(?P<E>" + ROW + ")", VOID, "$0.insert($1);"),
   # ---- iterators over systems
-  R("ppl_new_@SYSTEM@_const_iterator", r"ppl_new_(?P<C>" + SYS + ")_const_iterator", VOID, "",
+  R("ppl_new_@SYSTEM@_const_iterator", r"ppl_new_(?P<C>" + SYS + ")_const_iterator", VOID, "R.extra_new = 1;",
     {0: "IterNew:ppl_delete_%(C)s_const_iterator"}),
-  R("ppl_new_@SYSTEM@_const_iterator_from_@SYSTEM@_const_iterator", r"ppl_new_(?P<C>" + SYS + r")_const_iterator_from_(?P=C)_const_iterator", VOID, "",
+  R("ppl_new_@SYSTEM@_const_iterator_from_@SYSTEM@_const_iterator", r"ppl_new_(?P<C>" + SYS + r")_const_iterator_from_(?P=C)_const_iterator", VOID, "R.extra_new = 1;",
     {0: "IterNew:ppl_delete_%(C)s_const_iterator", 1: "Custom:Iter<%(C)s>(IT_ANY)"},
     post="if (R.rc == 0 && #0.slot) R.expect(*static_cast<%(C)s::const_iterator*>(#0.slot) == #1.cit(), \"capi:result-differs\", \"copy differs from the source iterator\", \"equal iterators\");"),
   R("ppl_delete_@SYSTEM@_const_iterator", r"ppl_delete_(?P<C>" + SYS + ")_const_iterator", VOID, "",
-    {0: "Custom:Iter<%(C)s>(IT_DEL)"}, post="if (R.rc == 0) #0.cgone();"),
+    {0: "Custom:Iter<%(C)s>(IT_DEL)"}, post="if (R.rc == 0) { #0.cgone(); if (G.mode == MODE_MAIN) R.expect(R.live_after < R.live_before, \"life:not-released\", \"no ::operator new block was released by the delete function\", \"the object is released\"); }"),
   R("ppl_assign_@SYSTEM@_const_iterator_from_@SYSTEM@_const_iterator", r"ppl_assign_(?P<C>" + SYS + r")_const_iterator_from_(?P=C)_const_iterator", VOID,
     "#0.t1() = #0.t2();", {0: "Custom2:IterPair<%(C)s>(false)"}),
   R("ppl_@SYSTEM@_@BEGINEND@", r"ppl_(?P<C>" + SYS + ")_(?P<M>begin|end)", VOID, "$1 = $0.%(M)s();",
@@ -205,14 +205,14 @@ FIXED_RULES = [
   R("ppl_io_print_Artificial_Parameter", r"ppl_io_print_Artificial_Parameter", VOID, PRINT_TWIN, {0: "Custom:ArtPar"}, stdout=True, post=PRINT_POST),
   R("ppl_io_fprint_Artificial_Parameter", r"ppl_io_fprint_Artificial_Parameter", VOID, "using namespace IO_Operators; std::ostringstream s; s << $1; $0 = s.str();", {1: "Custom:ArtPar"}),
   R("ppl_io_asprint_Artificial_Parameter", r"ppl_io_asprint_Artificial_Parameter", VOID, "using namespace IO_Operators; std::ostringstream s; s << $1; $0 = s.str();", {1: "Custom:ArtPar"}),
-  R("ppl_new_Artificial_Parameter_Sequence_const_iterator", r"ppl_new_Artificial_Parameter_Sequence_const_iterator", VOID, "",
+  R("ppl_new_Artificial_Parameter_Sequence_const_iterator", r"ppl_new_Artificial_Parameter_Sequence_const_iterator", VOID, "R.extra_new = 1;",
     {0: "IterNew:ppl_delete_Artificial_Parameter_Sequence_const_iterator"}),
   R("ppl_new_Artificial_Parameter_Sequence_const_iterator_from_Artificial_Parameter_Sequence_const_iterator",
-    r"ppl_new_Artificial_Parameter_Sequence_const_iterator_from_Artificial_Parameter_Sequence_const_iterator", VOID, "",
+    r"ppl_new_Artificial_Parameter_Sequence_const_iterator_from_Artificial_Parameter_Sequence_const_iterator", VOID, "R.extra_new = 1;",
     {0: "IterNew:ppl_delete_Artificial_Parameter_Sequence_const_iterator", 1: "Custom:ArtIter(IT_ANY)"},
     post="if (R.rc == 0 && #0.slot) R.expect(*static_cast<ArtTr::type*>(#0.slot) == #1.cit(), \"capi:result-differs\", \"copy differs from the source iterator\", \"equal iterators\");"),
   R("ppl_delete_Artificial_Parameter_Sequence_const_iterator", r"ppl_delete_Artificial_Parameter_Sequence_const_iterator", VOID, "", {0: "Custom:ArtIter(IT_DEL)"},
-    post="if (R.rc == 0) #0.cgone();"),
+    post="if (R.rc == 0) { #0.cgone(); if (G.mode == MODE_MAIN) R.expect(R.live_after < R.live_before, \"life:not-released\", \"no ::operator new block was released by the delete function\", \"the object is released\"); }"),
   R("ppl_assign_Artificial_Parameter_Sequence_const_iterator_from_Artificial_Parameter_Sequence_const_iterator",
     r"ppl_assign_Artificial_Parameter_Sequence_const_iterator_from_Artificial_Parameter_Sequence_const_iterator", VOID, "#0.t1() = #0.t2();", {0: "Custom2:ArtIterPair"}),
   R("ppl_Artificial_Parameter_Sequence_const_iterator_dereference", r"ppl_Artificial_Parameter_Sequence_const_iterator_dereference", VOID, "#1.tref(*$0);",
@@ -258,11 +258,11 @@ PS_IT_POST = ("if (R.rc == 0 && #0.slot) R.expect(*static_cast<%(T)s::%(ITK)s*>(
               "\"copy differs from the source iterator\", \"equal iterators\");")
 
 EXTRA_DOMAIN_RULES = [
-  R("ppl_new_@CLASS@_iterator", r"ppl_new_{D}_(?P<ITK>iterator|const_iterator)", VOID, "", {0: "IterNew:ppl_delete_%(D)s_%(ITK)s"}),
-  R("ppl_new_@CLASS@_iterator_from_iterator", r"ppl_new_{D}_(?P<ITK>iterator|const_iterator)_from_(?P=ITK)", VOID, "",
+  R("ppl_new_@CLASS@_iterator", r"ppl_new_{D}_(?P<ITK>iterator|const_iterator)", VOID, "R.extra_new = 1;", {0: "IterNew:ppl_delete_%(D)s_%(ITK)s"}),
+  R("ppl_new_@CLASS@_iterator_from_iterator", r"ppl_new_{D}_(?P<ITK>iterator|const_iterator)_from_(?P=ITK)", VOID, "R.extra_new = 1;",
     {0: "IterNew:ppl_delete_%(D)s_%(ITK)s", 1: "Custom:Iter<%(T)s, %(ITTR)s >(IT_ANY)"}, post=PS_IT_POST),
   R("ppl_delete_@CLASS@_iterator", r"ppl_delete_{D}_(?P<ITK>iterator|const_iterator)", VOID, "", {0: "Custom:Iter<%(T)s, %(ITTR)s >(IT_DEL)"},
-    post="if (R.rc == 0) #0.cgone();"),
+    post="if (R.rc == 0) { #0.cgone(); if (G.mode == MODE_MAIN) R.expect(R.live_after < R.live_before, \"life:not-released\", \"no ::operator new block was released by the delete function\", \"the object is released\"); }"),
   R("ppl_@CLASS@_iterator_equal_test", r"ppl_{D}_(?P<ITK>iterator|const_iterator)_equal_test", BOOL, "return #0.t1() == #0.t2();",
     {0: "Custom2:IterPair<%(T)s, %(ITTR)s >(false)"}),
   R("ppl_@CLASS@_iterator_@BEGINEND@", r"ppl_{D}_(?P<ITK>iterator|const_iterator)_(?P<M>begin|end)", VOID, "",
